@@ -13,6 +13,9 @@ trace = {
   "handled": [[uid, probe token], ...],      # calls of the probe handler
   "calls": [[pre uid, addr, funsig], ...],   # run_target_function calls (resolved contracts x selectors)
   "probe_names": {token: "C.f(sig)"},
+  "components": {uid: {...}},                # for every Exec handed to get_state_id, at that moment: balance term id, code identities,
+                                             # storage items (key, value term id), path condition ids, slice, and "direct" = positions of the
+                                             # conditions mentioning a symbol of the balance / a stored value (computed here from the z3 terms)
 }
 The classification of an end state (stuck / revert / assertion / success) is recomputed here
 from the Exec itself, independently of the branches taken by _compute_frontier.
@@ -55,6 +58,8 @@ def main():
 
     orig_gsi = m.get_state_id
 
+    sym_ids = {}
+
     def symbols(term, cache={}):  # noqa: B006
         """names of the uninterpreted constants of a z3 term (plain traversal of the DAG)"""
         import z3
@@ -89,16 +94,26 @@ def main():
         for st in ex.storage.values():
             for v in st._mapping.values():
                 state_syms |= symbols(v)
+        for contract in ex.code.values():  # symbolic parts of deployed code (none in the fabricated projects)
+            for chunk in getattr(getattr(contract, "_code", None), "chunks", {}).values():
+                data = getattr(chunk, "data", None)
+                if hasattr(data, "get_id") and hasattr(data, "children"):
+                    state_syms |= symbols(data)
+        def num(names):
+            return sorted(sym_ids.setdefault(n, len(sym_ids) + 1) for n in names)
+
         return {
             "direct": [i for i, c in enumerate(path.conditions) if symbols(c) & state_syms],
             "state_symbols": sorted(state_syms)[:8],
+            "cond_syms": [num(symbols(c)) for c in path.conditions],     # the symbols of each condition, numbered
+            "state_syms": num(state_syms),
             "balance": ex.balance.get_id(),
             "code": [[int_of(a), id(c)] for a, c in ex.code.items()],
             "storage": [[int_of(a), [[list(k) if isinstance(k, tuple) else k, v.get_id()] for k, v in st._mapping.items()]]
                         for a, st in ex.storage.items()],
             "conds": [c.get_id() for c in path.conditions],
             "sliced": None if path.sliced is None else sorted(path.sliced),
-            "cond_text": {str(i): str(c)[:120] for i, c in enumerate(path.conditions) if (path.sliced is not None and i in path.sliced) or symbols(c) & state_syms},
+            "cond_text": {str(i): str(c)[:120] for i, c in enumerate(path.conditions)},
         }
 
     def get_state_id(ex):
